@@ -502,11 +502,17 @@ type modLocs struct {
 	coarse  map[string]bool   // array name fully havoced
 	wild    []string          // name prefixes fully havoced
 	sorts   map[string]Sort
+	keep    []string
 }
 
 func (ml modLocs) isCoarse(name string) bool {
 	if ml.coarse[name] {
 		return true
+	}
+	for _, k := range ml.keep {
+		if strings.Contains(name, k) {
+			return false
+		}
 	}
 	for _, w := range ml.wild {
 		if strings.Contains(name, w) {
@@ -517,7 +523,7 @@ func (ml modLocs) isCoarse(name string) bool {
 }
 
 func (x *Exec) resolveModifies(st *State, spec *FuncSpec, env *Env) modLocs {
-	ml := modLocs{precise: map[string][]Term{}, coarse: map[string]bool{}, sorts: map[string]Sort{}}
+	ml := modLocs{precise: map[string][]Term{}, coarse: map[string]bool{}, sorts: map[string]Sort{}, keep: spec.Preserves}
 	oenv := env
 	for _, mi := range spec.Modifies {
 		switch {
@@ -585,7 +591,7 @@ func (x *Exec) resolveModifies(st *State, spec *FuncSpec, env *Env) modLocs {
 				}
 				sfail("contents() of non-map %s", typeName(m.Typ))
 			}
-			n := regionOf(m)
+			n := st.region(m)
 			ml.precise["mapdom:"+n] = append(ml.precise["mapdom:"+n], m.T())
 			ml.precise["mapcard:"+n] = append(ml.precise["mapcard:"+n], m.T())
 			for _, c := range comps(mt.Elem()) {
@@ -650,7 +656,16 @@ func (x *Exec) havocModifies(st *State, spec *FuncSpec, env *Env) {
 				continue // never touched by anybody in this unit
 			}
 		}
-		st.heapHavoc(name, s)
+		before := st.heapGet(name, s)
+		st.calleeHavoc = true
+		after := st.heapHavoc(name, s)
+		st.calleeHavoc = false
+		// a callee cannot reach the caller's non-escaping locals
+		for _, lr := range st.localRefs {
+			if strings.HasPrefix(name, lr.prefix) {
+				st.assume(Eq(Select(after, lr.ref), Select(before, lr.ref)))
+			}
+		}
 	}
 	for _, name := range sortedKeys(ml.precise) {
 		if ml.coarse[name] {
